@@ -41,12 +41,23 @@ NEG = {'==': '!=', '!=': '==', 'is': 'is not', 'is not': 'is', 'in': 'not in', '
        '<': '>=', '>=': '<', '>': '<=', '<=': '>'}
 
 
+_MATCH_FIELDS: dict[str, list[str]] = {}
+
+
+def DEFAULT_MATCH_FIELDS(name: str):
+    return _MATCH_FIELDS.get(name.split('.')[-1])
+
+
+def register_match_fields(table: dict[str, list[str]]) -> None:
+    _MATCH_FIELDS.update(table)
+
+
 class PyEval:
     MAX_PATHS = 4000
 
     def __init__(self, match_fields=None):
         # match_fields(class name) -> list of positional field names for `case C(a, b)` patterns
-        self.match_fields = match_fields or (lambda name: None)
+        self.match_fields = match_fields or DEFAULT_MATCH_FIELDS
 
     # -- entry -----------------------------------------------------------
     def paths(self, fn: ast.FunctionDef, env: dict | None = None) -> list[PPath]:
@@ -494,6 +505,8 @@ def show(v) -> str:
         return f'{v[1]}<{show(v[2])} for {"; ".join(g[0] + " in " + show(g[1]) for g in v[3])}>'
     if k == 'elem':
         return f'elem({show(v[1])})'
+    if k == 'component':
+        return f'{show(v[1])}.{v[2]}.{v[3]}'
     if k == 'binop':
         return f'({show(v[2])} {v[1]} {show(v[3])})'
     if k == 'star':
